@@ -222,6 +222,8 @@ class C05(Prop):
             "seg": gen.segmentation(),
             # an earlier connection in this process (same WebSocket object or another) and how it ended
             "prelude": gen.prelude(),
+            # a second live connection in the same process (interleaved with this one, or blocked in a send)
+            "companion": gen.companion(),
             "before": st.lists(st.sampled_from(["text", "binary", "fragtext"]), max_size=2),
         })
 
